@@ -294,7 +294,7 @@ pub fn check_program(prog: &Program, surface: Surface, seed: u64, thorough: bool
             n += 1;
             match in_re(surface, &mut mgr, wd, t) {
                 Ok(got) => {
-                    if got == want && wd.len() <= 5 && rb.size() <= 14 && rep.xchecks.len() < 60 && n % 97 == 1 {
+                    if got == want && wd.len() <= 5 && rb.size() <= 14 && rep.xchecks.len() < 60 && n % 97 == 1 && crate::oracle::smtlib::cvc5_safe(&rb) {
                         rep.xcheck(|| format!("(= (str.in_re {} {}) {})", crate::oracle::smtlib::lit(wd), crate::oracle::smtlib::re(&rb), got));
                     }
                     if got != want {
